@@ -1,7 +1,6 @@
 package verifsim
 
 import (
-	"crypto/x509/pkix"
 	"bytes"
 	"crypto"
 	"crypto/ecdsa"
@@ -9,6 +8,7 @@ import (
 	"crypto/rand"
 	"crypto/rsa"
 	"crypto/x509"
+	"crypto/x509/pkix"
 	"encoding/asn1"
 	"encoding/pem"
 	"fmt"
@@ -57,7 +57,7 @@ var sigAlgHash = map[SigAlg]crypto.Hash{
 	RSAPSSSHA256: crypto.SHA256, MD5RSA: crypto.MD5,
 }
 
-func (a SigAlg) IsRSA() bool { return a >= RSASHA256 && a <= RSAPSSSHA256 || a == MD5RSA }
+func (a SigAlg) IsRSA() bool     { return a >= RSASHA256 && a <= RSAPSSSHA256 || a == MD5RSA }
 func (a SigAlg) Supported() bool { return a <= RSASHA512 }
 func (a SigAlg) String() string {
 	return [...]string{"ecdsa-sha256", "ecdsa-sha1", "ecdsa-sha224", "ecdsa-sha384", "ecdsa-sha512", "rsa-sha256", "rsa-sha1", "rsa-sha224", "rsa-sha384", "rsa-sha512", "rsa-pss-sha256", "ed25519", "md5-rsa"}[a]
@@ -71,31 +71,31 @@ type CRLEntrySpec struct {
 }
 
 type CRLSpec struct {
-	Name       string // e.g. "L1.v2"
-	Issuer     *CA    // CA whose *name* the CRL carries
-	Signer     *CA    // CA whose *key* signs (== Issuer for an authentic CRL)
-	SignerKey  crypto.Signer
-	Alg        SigAlg
-	AutoAlg    bool
-	Version    int // 1 or 2 (0 = 2)
-	ThisUpdate time.Time
-	NextUpdate time.Time // zero: absent
-	Number     int64     // -1: no cRLNumber extension
-	AKI        int       // akiDefault...; only for v2
-	NoExts     bool      // v2 without crlExtensions
-	CritUnknown bool     // add an unknown critical extension
-	Entries    []CRLEntrySpec
-	PEM        bool
-	CRLF       bool
-	BadSig     bool // flip a bit of the signature value after signing
-	SigOverride []byte // use this signature value instead of signing (a signature replayed from another document)
-	AlgOID     asn1.ObjectIdentifier // when set: the OID written into both AlgorithmIdentifiers (the signature is still made with Alg)
-	AlgParams  int                   // with AlgOID: 0 = parameters absent, 1 = NULL
-	Indirect   *CA                   // when set: a critical issuingDistributionPoint with indirectCRL=TRUE is added (the
-	                                 // caller appends entries whose certificateIssuer names this CA)
-	RawIssuer  []byte                // when set: the DER of the issuer Name written into the tbsCertList
-	AKIRaw     []byte                // when set: the authorityKeyIdentifier extension value, verbatim
-	Sig        []byte // built: the signature value
+	Name        string // e.g. "L1.v2"
+	Issuer      *CA    // CA whose *name* the CRL carries
+	Signer      *CA    // CA whose *key* signs (== Issuer for an authentic CRL)
+	SignerKey   crypto.Signer
+	Alg         SigAlg
+	AutoAlg     bool
+	Version     int // 1 or 2 (0 = 2)
+	ThisUpdate  time.Time
+	NextUpdate  time.Time // zero: absent
+	Number      int64     // -1: no cRLNumber extension
+	AKI         int       // akiDefault...; only for v2
+	NoExts      bool      // v2 without crlExtensions
+	CritUnknown bool      // add an unknown critical extension
+	Entries     []CRLEntrySpec
+	PEM         bool
+	CRLF        bool
+	BadSig      bool                  // flip a bit of the signature value after signing
+	SigOverride []byte                // use this signature value instead of signing (a signature replayed from another document)
+	AlgOID      asn1.ObjectIdentifier // when set: the OID written into both AlgorithmIdentifiers (the signature is still made with Alg)
+	AlgParams   int                   // with AlgOID: 0 = parameters absent, 1 = NULL
+	Indirect    *CA                   // when set: a critical issuingDistributionPoint with indirectCRL=TRUE is added (the
+	// caller appends entries whose certificateIssuer names this CA)
+	RawIssuer []byte // when set: the DER of the issuer Name written into the tbsCertList
+	AKIRaw    []byte // when set: the authorityKeyIdentifier extension value, verbatim
+	Sig       []byte // built: the signature value
 
 	DER   []byte // built
 	Bytes []byte // as served (DER or PEM)
